@@ -192,10 +192,159 @@ pub fn case(rng: &mut Rng, out: &mut Out, threads: bool) {
     out.count("clones", k as u64);
 }
 
+
+/// the batch mask computation of the C API over clones of one constraint (llg_clone_constraint),
+/// each with its own history: every batch step, run on the rayon pool into caller buffers that are
+/// re-used from step to step, gives each clone what a private, freshly built engine with the same
+/// history gives ({EOS} once that engine has stopped)
+pub fn par_case(rng: &mut Rng, out: &mut Out) {
+    use llguidance::api::TopLevelGrammar;
+    use llguidance::ffi::*;
+    use llguidance::toktrie::InferenceCapabilities;
+    use llguidance::{Constraint, ParserFactory};
+    let g = if rng.chance(1, 3) { gen_diamond_gram(rng) } else { gen_gram(rng) };
+    let lark = g.to_lark();
+    let (ws, eos) = gen_engine_vocab(rng, 30);
+    let env = make_env(&ws, eos, false);
+    let Ok(mut f) = ParserFactory::new(&env, InferenceCapabilities::default(), &[]) else { return };
+    f.quiet();
+    let fresh = |f: &ParserFactory| -> Option<Constraint> { f.create_parser(TopLevelGrammar::from_lark(lark.clone())).ok().map(Constraint::new) };
+    if fresh(&f).is_none() {
+        out.count("grammar_rejected", 1);
+        return;
+    }
+    let tok = crate::c17::c_tokenizer(&ws, eos);
+    if tok.is_null() {
+        return;
+    }
+    let init = crate::c17::c_init(tok);
+    let clark = std::ffi::CString::new(lark.clone()).unwrap();
+    let base = llg_new_constraint_lark(&init, clark.as_ptr());
+    let words = ws.len().div_ceil(32);
+    // common prefix on the base constraint
+    let np = rng.below(3);
+    let prefix = plan_history(rng, &env, &lark, &ws, eos, &[], np);
+    let mut ok = true;
+    for &t in &prefix {
+        let mut mres: LlgMaskResult = unsafe { std::mem::zeroed() };
+        let mut cres: LlgCommitResult = unsafe { std::mem::zeroed() };
+        if llg_compute_mask(unsafe { &mut *base }, &mut mres) != 0 || llg_commit_token(unsafe { &mut *base }, t, &mut cres) != 0 {
+            ok = false;
+            break;
+        }
+    }
+    let k = rng.range(2, 8);
+    let mut clones: Vec<*mut LlgConstraint> = vec![];
+    let mut todo: Vec<Vec<u32>> = vec![];
+    let mut done_hist: Vec<Vec<u32>> = vec![];
+    let mut privs: Vec<Constraint> = vec![];
+    if ok {
+        for _ in 0..k {
+            let nh = rng.range(0, 5);
+            let hist = plan_history(rng, &env, &lark, &ws, eos, &prefix, nh);
+            if hist.len() < prefix.len() {
+                continue;
+            }
+            // the private engine: built from scratch, fed the prefix
+            let Some(mut p) = fresh(&f) else { continue };
+            let mut fine = true;
+            for &t in &prefix {
+                if p.compute_mask().is_err() || p.commit_token(Some(t)).is_err() {
+                    fine = false;
+                }
+            }
+            if !fine {
+                continue;
+            }
+            clones.push(llg_clone_constraint(unsafe { &*base }));
+            todo.push(hist[prefix.len()..].to_vec());
+            done_hist.push(prefix.clone());
+            privs.push(p);
+        }
+    }
+    // caller buffers: allocated once, never cleared between batch steps
+    let mut bufs: Vec<Vec<u32>> = clones.iter().map(|_| vec![0xFFFF_FFFFu32; words]).collect();
+    let mut viol: Vec<String> = vec![];
+    let mut alive: Vec<bool> = clones.iter().map(|_| true).collect();
+    let mut rounds = 0;
+    while alive.iter().any(|&a| a) && rounds < 8 && viol.is_empty() {
+        rounds += 1;
+        let idx: Vec<usize> = (0..clones.len()).filter(|&i| alive[i]).collect();
+        let steps: Vec<LlgConstraintStep> = idx.iter().map(|&i| LlgConstraintStep { constraint: clones[i], mask_dest: bufs[i].as_mut_ptr(), mask_byte_len: words * 4 }).collect();
+        unsafe { llg_par_compute_mask(steps.as_ptr(), steps.len(), std::ptr::null(), None) };
+        for &i in &idx {
+            // what the private engine says in the same state
+            let mut expect = vec![0u32; words];
+            let mut stop = false;
+            match privs[i].compute_mask() {
+                Ok(r) => {
+                    if let Some(m) = r.sample_mask.as_ref() {
+                        for (j, w) in m.as_slice().iter().enumerate().take(words) {
+                            expect[j] = *w;
+                        }
+                    }
+                    if r.is_stop() {
+                        stop = true;
+                        expect[eos as usize / 32] |= 1 << (eos % 32);
+                    }
+                }
+                Err(_) => {
+                    alive[i] = false;
+                    continue;
+                }
+            }
+            if bufs[i] != expect {
+                let show = |w: &[u32]| -> Vec<u32> { (0..ws.len() as u32).filter(|&t| w[t as usize / 32] & (1 << (t % 32)) != 0).collect() };
+                viol.push(format!(
+                    "batch step {rounds}, clone {i} with history {:?}: llg_par_compute_mask wrote {:?} but a private fresh engine gives {:?}{}",
+                    done_hist[i], show(&bufs[i]), show(&expect), if stop { " (stopped)" } else { "" }
+                ));
+                break;
+            }
+            if stop || todo[i].is_empty() {
+                alive[i] = false;
+                continue;
+            }
+            let t = todo[i].remove(0);
+            let mut cres: LlgCommitResult = unsafe { std::mem::zeroed() };
+            let cc = llg_commit_token(unsafe { &mut *clones[i] }, t, &mut cres);
+            let pr = privs[i].commit_token(Some(t));
+            if (cc == 0) != pr.is_ok() {
+                viol.push(format!("clone {i}: llg_commit_token({t}) = {cc} but the private engine returned ok = {}", pr.is_ok()));
+                break;
+            }
+            if cc != 0 {
+                alive[i] = false;
+                continue;
+            }
+            done_hist[i].push(t);
+            // a clone that has used up its tokens stays in the batch for one more step (its final mask, or its stop)
+        }
+    }
+    unsafe {
+        for c in clones.iter() {
+            llg_free_constraint(*c);
+        }
+        llg_free_constraint(base);
+        llg_free_tokenizer(tok);
+    }
+    let n = privs.len();
+    for v in viol {
+        out.violation(&v, lark.clone());
+    }
+    out.case(tagged("noop", vec![sym("par"), int(n), int(rounds)]), tagged("noop", vec![sym("par"), int(n), int(rounds)]), n > 1 && rounds > 1);
+    out.count("par_batches", rounds as u64);
+    out.count("par_cases", 1);
+}
+
 pub fn run(rng: &mut Rng, out: &mut Out, tier: &str) {
     let n = if tier == "thorough" { 4000 } else { 400 };
     for i in 0..n {
         let mut r = rng.fork(i as u64);
         case(&mut r, out, i % 2 == 1);
+        if i % 2 == 0 {
+            let mut r = rng.fork(0x1400_0000 + i as u64);
+            par_case(&mut r, out);
+        }
     }
 }
